@@ -484,5 +484,7 @@ def chk_enum_rej_{en}_{pn}(kind, tag, n, c0, c1):
                           pre=["0 <= rk < 7", "0 <= i0 < 9 and 0 <= i1 < 9 and 0 <= i2 < 9"], timeout=tmo * 2,
                           family="flag by member names: accepts exactly valid name lists",
                           bounds=f"candidate: list/tuple/str/dict/None/int/iterator of exactly 3 items from the 9-item pool; option combination {oi}")
-    return Plan("C18", [m, mf, kflag_module()], assumptions=["bool/int look-alike data for int-valued enums are not counted as non-representations (True == 1)"],
+    from props.C10 import build as build_c10
+    extra = [m10 for m10 in build_c10(tier, seed).modules if m10.key == "c10_multi"]       # enum / flag providers given several classes at once
+    return Plan("C18", [m, mf, kflag_module()] + extra, assumptions=["bool/int look-alike data for int-valued enums are not counted as non-representations (True == 1)"],
                 bounds={"flag bits": "3"}, outside=["flags with more than 3 bits (K-flag covers the mask guard for all masks)", "members >= 2**53 (float log2)"])
